@@ -94,6 +94,14 @@ pub fn url_oracle(name: &str, arg: &str) -> String {
             }
         }
         "hd" => hexs(&host_from_token(arg).to_string()),
+        // IDNA ToASCII exactly as url/src/host.rs calls it
+        "idna" => {
+            let bytes = unhexb(arg);
+            match std::panic::catch_unwind(move || idna::domain_to_ascii_cow(&bytes, idna::AsciiDenyList::URL).map(|c| c.into_owned())) {
+                Ok(Ok(s)) => hexs(&s),
+                _ => "~".into(),
+            }
+        }
         _ => panic!("unknown oracle {}", name),
     }
 }
